@@ -165,6 +165,22 @@ def evaluate(case, ctx):
                 w = counting.weight(at, len(feats), strategy)
                 for f in feats:
                     alt[f] += w
+            # the same for one alignment reported with several features after it was processed in several regions of a
+            # split cluster: every region counted it with the weight of a single-feature record
+            alt_split = defaultdict(float)
+            for key, rws in records.items():
+                if level == "transcript":
+                    feats = set(r["isoform"] for r in rws if r["isoform"] != ".")
+                    at = rws[0]["type"]
+                else:
+                    feats = set(r["gene"] for r in rws if r["gene"] != ".")
+                    at = rws[0]["info"].get("gene_assignment", rws[0]["type"])
+                if len(feats) >= 2 and at in ("ambiguous", "inconsistent_ambiguous"):
+                    w = counting.weight("inconsistent" if at.startswith("inconsistent") else "unique", 1, strategy)
+                else:
+                    w = counting.weight(at, len(feats), strategy)
+                for f in feats:
+                    alt_split[f] += w
             confirmed = set()
             nreads = defaultdict(int)
             for key, rws in records.items():
@@ -200,6 +216,11 @@ def evaluate(case, ctx):
                 if v != 0 and abs(v - e) > tol:
                     if abs(v - alt.get(f, 0.0)) <= tol and any(f in contrib[r][1] for r in multi):
                         sig = "C02:multi-locus-read-counted-at-every-locus:" + level
+                    elif sc.get("template") and abs(v - alt_split.get(f, 0.0)) <= tol:
+                        # root cause of the recorded split-point findings (C13, C05, C04): one alignment that crosses a
+                        # split point of its cluster is processed in both regions, against the genes of that region
+                        # only; each region counts it as a read of its own before the two records are merged
+                        sig = "C02:read-crossing-a-split-point-counted-in-every-region:" + level
                     else:
                         sig = "C02:%s-count-differs" % level
                     ctx.violation(sig, {"feature": f, "table": v, "expected": round(e, 4), "strategy": strategy,
